@@ -387,7 +387,8 @@ def constraint_partial_evaluate():
                 sig='fn partial_evaluate(&mut self, state: &State) -> Result<BTreeSet<u64>>', wrap=('impl Constraint {', '}'),
                 header='''pub fn partial_evaluate(&mut self, state: &State) -> (r: %s)
     ensures
-        r is Ok ==> c_pe_rel(*old(self), *final(self), state.entries@, r->Ok_0@),''' % PE_RES)
+        r is Ok ==> c_pe_rel(*old(self), *final(self), state.entries@, r->Ok_0@),
+        r is Err ==> old(self).function is Some && old(self).function->Some_0.function is Some && old(self).function->Some_0.function->Some_0 is Quadratic,''' % PE_RES)
 
 
 def removed_constraint_partial_evaluate():
